@@ -9,12 +9,12 @@ import (
 	"fmt"
 	"go/types"
 	"math"
+	"math/bits"
 	"os"
 	"path/filepath"
-	"sync"
-	"math/bits"
 	"sort"
 	"strings"
+	"sync"
 	"unsafe"
 )
 
@@ -26,14 +26,14 @@ var intrinsics = map[string]intrinsic{}
 
 // altBodies maps body-less functions to pure-Go equivalents in the same package.
 var altBodies = map[string][2]string{
-	"math/big.addVV":      {"math/big", "addVV_g"},
-	"math/big.subVV":      {"math/big", "subVV_g"},
-	"math/big.addVW":      {"math/big", "addVW_g"},
-	"math/big.subVW":      {"math/big", "subVW_g"},
-	"math/big.shlVU":      {"math/big", "shlVU_g"},
-	"math/big.shrVU":      {"math/big", "shrVU_g"},
-	"math/big.mulAddVWW":  {"math/big", "mulAddVWW_g"},
-	"math/big.addMulVVW":  {"math/big", "addMulVVW_g"},
+	"math/big.addVV":     {"math/big", "addVV_g"},
+	"math/big.subVV":     {"math/big", "subVV_g"},
+	"math/big.addVW":     {"math/big", "addVW_g"},
+	"math/big.subVW":     {"math/big", "subVW_g"},
+	"math/big.shlVU":     {"math/big", "shlVU_g"},
+	"math/big.shrVU":     {"math/big", "shrVU_g"},
+	"math/big.mulAddVWW": {"math/big", "mulAddVWW_g"},
+	"math/big.addMulVVW": {"math/big", "addMulVVW_g"},
 }
 
 func init() {
